@@ -53,11 +53,26 @@ pub fn lonlat_to_cell(lonlat: LonLat, resolution: i32) -> Result<u64, String> {
     let n = 25;
     let scale = 50.0 / 2.0_f64.powi(hilbert_resolution);
 
+    // Lay the spiral out on the sphere: each probe is the point at angular distance r in direction
+    // i from the query point, built from the local east/north tangent vectors. Adding the offsets
+    // to longitude/latitude in degrees squeezes the spiral east-west by cos(latitude), which loses
+    // the containing cell towards the poles.
+    let (sin_lat, cos_lat) = lonlat.latitude().to_radians().sin_cos();
+    let (sin_lon, cos_lon) = lonlat.longitude().to_radians().sin_cos();
+    let up = [cos_lat * cos_lon, cos_lat * sin_lon, sin_lat];
+    let east = [-sin_lon, cos_lon, 0.0];
+    let north = [-sin_lat * cos_lon, -sin_lat * sin_lon, cos_lat];
     for i in 0..n {
         let r = (i as f64 / n as f64) * scale;
+        let (sin_r, cos_r) = r.to_radians().sin_cos();
+        let (sin_i, cos_i) = (i as f64).sin_cos();
+        let mut v = [0.0; 3];
+        for k in 0..3 {
+            v[k] = up[k] * cos_r + (east[k] * cos_i + north[k] * sin_i) * sin_r;
+        }
         let coordinate = LonLat::new(
-            lonlat.longitude() + (i as f64).cos() * r,
-            lonlat.latitude() + (i as f64).sin() * r,
+            v[1].atan2(v[0]).to_degrees(),
+            v[2].atan2(v[0].hypot(v[1])).to_degrees(),
         );
         samples.push(coordinate);
     }
